@@ -605,7 +605,7 @@ HofReduce(fn, items, i, accv, st) ==
 
 EachPairs(fn, m, i, acc, st) ==
     IF i > Len(m) THEN Ok(SeqValue(acc, FALSE), st)
-    ELSE LET R == Call(fn, SubSeq(<<m[i][2], Str(m[i][1])>>, 1, Clamp(FnArity(fn), 1, 2)), NoSite(st))
+    ELSE LET R == Call(fn, SubSeq(<<m[i][2], Str(m[i][1]), Obj(m)>>, 1, Clamp(FnArity(fn), 1, 3)), NoSite(st))
          IN  IF R.x # "ok" THEN R
              ELSE EachPairs(fn, m, i + 1, IF IsUndef(R.r) THEN acc ELSE Append(acc, R.r), R.st)
 SiftPairs(fn, m, i, acc, st) ==
